@@ -58,6 +58,8 @@ pub struct OpRecord {
     pub out_a: Vec<u8>,
     pub out_b: Vec<u8>,
     pub ok: bool,
+    /// the observed call went through the in-memory SigningKey object
+    pub via_obj: bool,
 }
 
 pub struct Options {
@@ -321,7 +323,7 @@ impl World {
             k.aux[*slot] = Some(buf);
         }
         self.records.push(match out {
-            Outcome::Ok((a, b)) => Some(OpRecord { kind: "Keygen", key: ki, prv_in: vec![], msg: vec![], out_a: a, out_b: b, ok: true }),
+            Outcome::Ok((a, b)) => Some(OpRecord { kind: "Keygen", key: ki, prv_in: vec![], msg: vec![], out_a: a, out_b: b, ok: true, via_obj: false }),
             _ => None,
         });
     }
@@ -673,7 +675,7 @@ impl World {
         }
 
         self.records.push(match (&outcome, &successor_seen) {
-            (Outcome::Ok(sig), Some(s)) => Some(OpRecord { kind: "Sign", key: ki, prv_in: kb.clone(), msg: message.clone(), out_a: sig.clone(), out_b: s.clone(), ok: true }),
+            (Outcome::Ok(sig), Some(s)) => Some(OpRecord { kind: "Sign", key: ki, prv_in: kb.clone(), msg: message.clone(), out_a: sig.clone(), out_b: s.clone(), ok: true, via_obj: !matches!(api_eff, Api::Fn) }),
             _ => None,
         });
         if released {
